@@ -21,9 +21,10 @@ RULE = (
     "swallow, re-raise, raise new, raise new from None, raise same type, return, yield again, raise "
     "StopAsyncIteration / StopIteration, raise its own RuntimeError (plain, or 'from' the caught one), raise an "
     "equal copy} x afterwards {stop, yield again, raise, raise Stop(Async)Iteration, raise RuntimeError} with "
-    "0..2 suspensions per segment, and enumerates all 11 block outcomes {normal, Exception, BaseException, "
+    "0..2 suspensions per segment, and enumerates all 13 block outcomes {normal, Exception, BaseException, "
     "StopIteration, StopAsyncIteration, RuntimeError, GeneratorExit, KeyboardInterrupt, SystemExit, an exception with "
-    "value equality, an exception object that tests false}; the generator function may be a functools.partial; one pair of executions (asyncstdlib / contextlib) per "
+    "value equality, an exception object that tests false}; the generator function may be a functools.partial or a method used through an instance, the statement may run inside "
+    "the handler of an unrelated exception; user-defined subclasses of StopIteration / StopAsyncIteration are outcomes too; one pair of executions (asyncstdlib / contextlib) per "
     "outcome. Oracle: same bound value, same generator event log (resumed or thrown into exactly once), same "
     "outcome class (same object propagates / other exception type+marker / suppressed / RuntimeError); the "
     "documented GeneratorExit rule encoded. Non-trivial: the generator yielded; distinct = distinct "
@@ -45,7 +46,8 @@ HANDLERS = ("none", "finally", "swallow", "reraise", "raise_new", "raise_new_fro
             "raise_stopiter")
 POST = ("stop", "yield_again", "raise", "raise_stopasync", "raise_stopiter", "raise_runtime")
 OUTCOMES = ("normal", "Exception", "BaseException", "StopIteration", "StopAsyncIteration", "RuntimeError",
-            "GeneratorExit", "KeyboardInterrupt", "EqualException", "FalsyException", "SystemExit")
+            "GeneratorExit", "KeyboardInterrupt", "EqualException", "FalsyException", "SystemExit",
+            "StopIterationSubclass", "StopAsyncIterationSubclass")
 
 
 class GenError(Exception):
@@ -56,6 +58,14 @@ class GenError(Exception):
 
 class BlockBase(BaseException):
     pass
+
+
+class EndOfStream(StopIteration):
+    """A user-defined kind of StopIteration"""
+
+
+class EndOfAsyncStream(StopAsyncIteration):
+    """A user-defined kind of StopAsyncIteration"""
 
 
 class EqualError(Exception):
@@ -96,6 +106,10 @@ def prepare(ch):
     prep.kwargs = {names[ch.draw(len(names))]: i for i in range(ch.draw(3))}
     # the generator function itself may be a functools.partial of an async generator function (no __name__ ...)
     prep.partial = ch.chance(1, 4)
+    # ... or an ordinary method of a class, used through an instance
+    prep.method = (not prep.partial) and ch.chance(1, 4)
+    # the whole async-with statement may run inside the handler of an unrelated exception
+    prep.ambient = ch.chance(1, 4)
     return prep
 
 
@@ -103,14 +117,19 @@ def fault_lists(prep, faults):
     return [[o] for o in range(len(OUTCOMES))]
 
 
-def make_genfunc(prep, sim, log, injected):
+def make_genfunc(prep, sim, log, injected, method_of=None):
     susp = prep.susp
 
     async def pause(n):
         for _ in range(n):
             await sim.suspend(PAUSE, None, "generator")
 
-    async def genfunc(arg, /, **kw):
+    async def genfunc(*pos, **kw):
+        arg = pos[-1]
+        if method_of is not None and (len(pos) != 2 or not isinstance(pos[0], method_of)):
+            log.append(("self_not_bound", repr(pos)))
+        elif method_of is None and len(pos) != 1:
+            log.append(("unexpected_positionals", repr(pos)))
         log.append(("start", arg, tuple(sorted(kw.items()))))
         await pause(susp[0])
         if prep.pre == "raise":
@@ -202,6 +221,10 @@ def make_exc(outcome):
         return FalsyError("block")
     if outcome == "SystemExit":
         return SystemExit(3)
+    if outcome == "StopIterationSubclass":
+        return EndOfStream("block")
+    if outcome == "StopAsyncIterationSubclass":
+        return EndOfAsyncStream("block")
     return KeyboardInterrupt("block")
 
 
@@ -232,9 +255,25 @@ def one_side(prep, outcome, st, decorator, interrupts):
 
         factory = functools.partial(decorator(functools.partial(genfunc, "arg")))
         call = lambda _arg, **kw: factory(**kw)  # noqa: E731  (the positional argument is already bound)
+    elif prep.method:
+        # the async generator function is an ordinary method: the descriptor protocol has to bind self
+        Resource = type("Resource", (), {})
+        genmethod = make_genfunc(prep, sim, log, injected, method_of=Resource)
+        Resource.session = decorator(genmethod)
+        instance = Resource()
+        call = lambda arg, **kw: instance.session(arg, **kw)  # noqa: E731
     else:
         call = decorator(genfunc)
-    sim.spawn(use(call, prep, sim, log, injected, res))
+    if prep.ambient:
+        async def in_handler():
+            try:
+                raise LookupError("unrelated, being handled by the caller")
+            except LookupError:
+                await use(call, prep, sim, log, injected, res)
+
+        sim.spawn(in_handler())
+    else:
+        sim.spawn(use(call, prep, sim, log, injected, res))
     run_sim(sim)
     return sim, log, res
 
@@ -252,7 +291,9 @@ def run_prepared(prep, st, ctx):
 
     def describe():
         return {"program": {"pre": prep.pre, "handler": prep.handler, "post": prep.post, "suspensions": prep.susp,
-                            "kwargs": prep.kwargs, "generator_function_is_a_partial": prep.partial},
+                            "kwargs": prep.kwargs, "generator_function_is_a_partial": prep.partial,
+                            "generator_function_is_a_method": prep.method,
+                            "inside_handler_of_unrelated_exception": prep.ambient},
                 "block_outcome": outcome, "asyncstdlib": {"log": [repr(e) for e in alog], "result": repr(ares)},
                 "contextlib": {"log": [repr(e) for e in rlog], "result": repr(rres)}}
 
@@ -299,7 +340,8 @@ def run_prepared(prep, st, ctx):
     out.fault_free = outcome == "normal"
     if outcome != "normal":
         out.faults["block_raises_" + outcome] = 1
-    out.shape = (prep.pre, prep.handler, prep.post, outcome, tuple(prep.susp), tuple(sorted(prep.kwargs)), prep.partial)
+    out.shape = (prep.pre, prep.handler, prep.post, outcome, tuple(prep.susp), tuple(sorted(prep.kwargs)), prep.partial,
+                 prep.method, prep.ambient)
     if ctx.want_sample:
         out.sample = describe()
     if ctx.want_log:
